@@ -17,7 +17,8 @@
     void bs_set_##B(void *, size_t, size_t, uint64_t);                         \
     uint64_t bs_get_##B(const void *, size_t, size_t);                         \
     int64_t bs_prep_##B(int64_t, unsigned);                                    \
-    int64_t bs_rest_##B(int64_t, unsigned);
+    int64_t bs_rest_##B(int64_t, unsigned);                                    \
+    int64_t bs_signed_rt_##B(int64_t, unsigned, size_t);
 DECL(64) DECL(32) DECL(16) DECL(8)
 
 static void do_set(unsigned W, void *dst, size_t off, size_t w, uint64_t v) {
@@ -175,6 +176,26 @@ static void signed_case(unsigned W, unsigned w, int64_t x) {
     ev_end();
 }
 
+/* unsigned-holder pattern, through a stream of the word type itself */
+static void signed_case_word(unsigned W, unsigned w, int64_t x, size_t off) {
+    int64_t back = 0;
+    int f;
+    switch (W) {
+    case 64: f = GUARDED(back = bs_signed_rt_64(x, w, off)); break;
+    case 32: f = GUARDED(back = bs_signed_rt_32(x, w, off)); break;
+    case 16: f = GUARDED(back = bs_signed_rt_16(x, w, off)); break;
+    default: f = GUARDED(back = bs_signed_rt_8(x, w, off)); break;
+    }
+    ev_begin("BsSigned");
+    ev_int("word", W);
+    ev_int("width", w);
+    ev_str("holder", "word");
+    ev_word("x", (uint64_t)x);
+    ev_word("stored", 0);
+    ev_word("restored", f ? ~(uint64_t)x : (uint64_t)back);
+    ev_end();
+}
+
 int main(int argc, char **argv) {
     if (argc < 5) {
         fprintf(stderr, "usage: %s shard nshards dense out\n", argv[0]);
@@ -242,6 +263,9 @@ int main(int argc, char **argv) {
                 }
                 if (W == 64) { /* helpers operate on the caller's 64-bit variable */
                     signed_case(W, w, xs[i]);
+                }
+                if (w <= W) {
+                    signed_case_word(W, w, xs[i], (size_t)(i * 7 + w) % W);
                 }
             }
         }
